@@ -225,6 +225,14 @@ def run(check: core.Check) -> None:
     clo = core.require_ok(core.run_tlc("ScopeGenEmit", "ScopeGen.closure.cfg", timeout=3000), "ScopeGen closure")
     check.add_tlc("closure4", clo)
     judge(check, core.emitted_json(clo), "tlc-closures")
+    # loop exits: one loop whose body contains a try statement / suppressing with and a break inside it (7 statements on
+    # the model; the 47k bodies with a break under a try / suppressing with are replayed -- a seeded sample in the quick tier)
+    lx = core.require_ok(core.run_tlc("ScopeGenEmit", "ScopeGen.loopexit.cfg", timeout=3000), "ScopeGen loopexit")
+    check.add_tlc("loopexit7", lx)
+    lprogs = core.emitted_json(lx)
+    if quick:
+        lprogs = rnd.sample(lprogs, 5000)
+    judge(check, lprogs, "tlc-loop-exit")
     if not quick:
         nest6 = core.require_ok(core.run_tlc("ScopeGen", "ScopeGen.nested6.cfg", timeout=3400), "ScopeGen nested6")
         check.add_tlc("nested6-model-only", nest6)
